@@ -369,4 +369,56 @@ theorem kmRun_inv : ∀ (sched : List Nat) (s : KMState), KMInv s.g → (∀ pc 
     have h := kmStep_inv hg hp i
     exact kmRun_inv t (kmStep true s i) h.1 h.2
 
+/-! ### AssertKinds returns its ids in the order of the kinds, independent of the mapper's history -/
+
+theorem put_of_has {g : KM} {k : Nat} (h : g.has k = true) : g.put true k = g := by
+  unfold KM.put; simp [h]
+
+theorem idOf_put_stable {g : KM} {k : Nat} (h : g.has k = true) (k' : Nat) : (g.put true k').idOf k = g.idOf k := by
+  unfold KM.put
+  by_cases hk' : g.has k' = true
+  · simp [hk']
+  · have hne : ¬ (k' == k) = true := by
+      intro e
+      have : k' = k := by simpa using e
+      subst this; exact hk' h
+    simp only [hk', Bool.and_false, Bool.false_eq_true, if_false]
+    unfold KM.idOf
+    simp [List.find?_cons, hne]
+
+theorem has_assertKinds_mono : ∀ (ks : List Nat) {g : KM} {k : Nat}, g.has k = true → (g.assertKinds ks).1.has k = true
+  | [], _, _, h => h
+  | k' :: t, g, k, h => by
+    unfold KM.assertKinds
+    exact has_assertKinds_mono t (has_put_mono true h)
+
+theorem idOf_assertKinds_stable : ∀ (ks : List Nat) {g : KM} {k : Nat}, g.has k = true → (g.assertKinds ks).1.idOf k = g.idOf k
+  | [], _, _, _ => rfl
+  | k' :: t, g, k, h => by
+    unfold KM.assertKinds
+    rw [idOf_assertKinds_stable t (has_put_mono true h), idOf_put_stable h]
+
+/-- the ids returned are the final table's ids of the kinds, in the order of the kinds -/
+theorem assertKinds_ids : ∀ (ks : List Nat) (g : KM), (g.assertKinds ks).2 = ks.map (g.assertKinds ks).1.idOf
+  | [], _ => rfl
+  | k :: t, g => by
+    unfold KM.assertKinds
+    simp only [List.map_cons]
+    rw [assertKinds_ids t (g.put true k), idOf_assertKinds_stable t (has_put_self k)]
+
+theorem assertKinds_all_present : ∀ (ks : List Nat) (g : KM), ∀ k ∈ ks, (g.assertKinds ks).1.has k = true
+  | [], _, _, h => nomatch h
+  | k' :: t, g, k, h => by
+    unfold KM.assertKinds
+    cases h with
+    | head => exact has_assertKinds_mono t (has_put_self _)
+    | tail _ h => exact assertKinds_all_present t _ k h
+
+theorem assertKinds_noop : ∀ (ks : List Nat) (g : KM), (∀ k ∈ ks, g.has k = true) → (g.assertKinds ks).1 = g
+  | [], _, _ => rfl
+  | k :: t, g, h => by
+    unfold KM.assertKinds
+    rw [put_of_has (h k (List.mem_cons_self ..))]
+    exact assertKinds_noop t g (fun k' hk' => h k' (List.mem_cons_of_mem _ hk'))
+
 end Dawgs.C05
